@@ -70,6 +70,16 @@ static std::string run_case(const Case& cs, Stat* st = nullptr) {
     const vec3 cpa_to_node = nf * (s * rel_cut);
     if (err.empty() && on_forbidden && fmag > 0) { if (st) st->forbidden_forces++;
         if (!(Fn.dot(cpa_to_node * -1.0) > 0) || !(Ff.dot(cpa_to_node) > 0)) { snprintf(buf, sizeof buf, "force-does-not-push-the-node-back-to-the-surface: node on the forbidden side at depth %.6g, F_node.(surface - node) = %.6g, F_triangle.(node - surface) = %.6g", d, Fn.dot(cpa_to_node * -1.0), Ff.dot(cpa_to_node)); err = buf; } }
+    // the repulsion is central: the node is pushed along the line to its closest point on the triangle (here: the base point, straight below it), the reaction is shared among the
+    // three nodes of the triangle by the barycentric weights of that point, and (coupling models) its size is strength x face area x distance
+    if (err.empty() && on_forbidden && fmag > 0) { const vec3 inplane = Fn - nf * Fn.dot(nf);
+        if (inplane.norm() > 1e-9 * fmag) { snprintf(buf, sizeof buf, "force-does-not-push-the-node-back-to-the-surface: the force on the node has a component of %.6g of %.6g in the plane of the triangle although its closest point lies straight below it", inplane.norm(), fmag); err = buf; }
+        const double w[3][3] = {{1. / 3, 1. / 3, 1. / 3}, {0.5, 0.5, 0}, {1, 0, 0}}; const unsigned ids3[3] = {f.n1_id_, f.n2_id_, f.n3_id_};
+        for (int k = 0; k < 3 && err.empty(); k++) { vec3 want = Fn * (-w[cs.base][k]); if ((B->node_lst_[ids3[k]].force_ - want).norm() > 1e-9 * fmag) { snprintf(buf, sizeof buf, "contact-force-not-reciprocal: node %d of the triangle carries (%.6g,%.6g,%.6g), its share of the reaction is (%.6g,%.6g,%.6g)", k, B->node_lst_[ids3[k]].force_.dx(), B->node_lst_[ids3[k]].force_.dy(), B->node_lst_[ids3[k]].force_.dz(), want.dx(), want.dy(), want.dz()); err = buf; } }
+#if CONTACT_MODEL_INDEX != 0
+        { const double rs = B->get_cell_type()->face_types_[f.type_id_].repulsion_strength_, A2 = 0.5 * (b - a).cross(c - a).norm(), want = rs * A2 * d; if (err.empty() && std::fabs(fmag - want) > 1e-9 * want) { snprintf(buf, sizeof buf, "repulsion-is-not-strength-x-area-x-distance: |F| = %.9g, the face type's repulsion strength %.6g x area %.6g x distance %.6g = %.9g", fmag, rs, A2, d, want); err = buf; } }
+#endif
+    }
     const double rep_strength = B->get_cell_type()->face_types_[f.type_id_].repulsion_strength_;
     const bool coupling_pair = (CONTACT_MODEL_INDEX != 0) && cs.ta == 0 && cs.tb == 0;
     if (err.empty() && on_forbidden && d < crep * (1 - 1e-9) && d > 0 && rep_strength > 0 && !coupling_pair && fmag == 0) { snprintf(buf, sizeof buf, "no-repulsion-for-a-node-on-the-forbidden-side-within-the-cutoff: depth %.6g, repulsion strength %.6g", d, rep_strength); err = buf; }
